@@ -278,6 +278,14 @@ def vtimezone(spec, tzid, form, daylight_first, nyears, fold_width=None,
 
 def gen_zone_spec(rng, form=None):
     spec = PX.gen_spec(rng)
+    if rng.random() < 0.1:
+        # the later of the two changes in December (first three weeks: the
+        # change itself stays inside its year)
+        later = max((spec["start"], spec["end"]),
+                    key=lambda r: PX.rule_date(r, 2001))
+        if later[0] == "M":
+            later[1] = 12
+            later[2] = rng.choice([1, 2, 3])
     form = form or rng.choice(["rrule", "rrule", "rdate", "rrule_count",
                                "rrule_until"])
     if form in ("rrule", "rrule_count", "rrule_until"):
